@@ -13,6 +13,7 @@ RM = 'recipe_manager.py'
 # ---------------------------------------------------------------------------------------------- native oracle (spec in Python)
 def _mods():
     core.stub_package()
+    import absl.logging; absl.logging.set_verbosity('error')          # add_quantization_config logs a warning for every in-place replacement
     rm = importlib.import_module('ai_edge_quantizer.recipe_manager'); qt = importlib.import_module('ai_edge_quantizer.qtyping')
     am = importlib.import_module('ai_edge_quantizer.algorithm_manager')
     return rm, qt, am
